@@ -67,6 +67,22 @@ Fixpoint op_of (t : term) : opattr :=
   | _ => ONone
   end.
 
+(* _is_negative_constant: a ValueWrapper holding a negative int / float / Decimal (not a bool) *)
+Definition is_neg_const (t : term) : bool :=
+  match t with
+  | TVal _ (VInt (Zneg _)) _ _ _ => true
+  | TVal _ (VNumText (45 :: _)) _ _ _ => true
+  | _ => false
+  end.
+
+(* _leads_with_minus *)
+Fixpoint leads_minus (t : term) : bool :=
+  match t with
+  | TNeg _ _ => true
+  | TArith op l _ _ => if left_needs_parens op (op_of l) then false else leads_minus l
+  | _ => is_neg_const t
+  end.
+
 Definition conn_of (t : term) : option conn := match t with TComplex c _ _ _ => Some c | _ => None end.
 
 Fixpoint terms_len (l : terms) : nat := match l with TNil => 0%nat | TCons _ r => S (terms_len r) end.
@@ -155,12 +171,12 @@ Fixpoint render (c : ctx) (p : pz) (t : term) {struct t} : res (str * pz) :=
       end
   | TNeg t' alias =>
       do (s, p1) <- render (set_with_alias false c) p t';
-      let compound := match t' with TArith _ _ _ _ => true | _ => false end in
+      let compound := match t' with TArith _ _ _ _ => true | _ => leads_minus t' end in
       Ok (alias_if (with_alias c) c ([45] ++ paren_if (compound || starts_minus s) s) alias, p1)
   | TArith op l r alias =>
       do (sl, p1) <- render (set_with_alias false c) p l;
       do (sr, p2) <- render (set_with_alias false c) p1 r;
-      let rp := right_needs_parens op (op_of r) || (arith_eqb op Sub && starts_minus sr) in
+      let rp := right_needs_parens op (op_of r) || (arith_eqb op Sub && (leads_minus r || starts_minus sr)) in
       let s := paren_if (left_needs_parens op (op_of l)) sl ++ arith_sql op ++ paren_if rp sr in
       Ok (alias_if (with_alias c) c s alias, p2)
   | TBasic o l r alias =>
